@@ -88,8 +88,9 @@ def for_target_assigned_in_body(p):
 
 def classify(p, d, rec, claims):
     """Semantic signature of a divergence between the prediction and the converted function."""
-    bad = mpmon.parse_bad(rec['bad']) if rec.get('bad') else None
-    if bad and bad[0] == 'live':
+    for bad in [mpmon.parse_bad(b) for b in mpmon.reports(rec)]:
+        if bad[0] != 'live':
+            continue
         sig, what = c07.classify(p, bad, claims)
         if sig in ('c07:live:for-header-kills-target', 'c07:live:jump-in-handler-not-routed-through-finally',
                    'c07:live:read-by-lambda-called-after-its-definition'):
@@ -99,7 +100,9 @@ def classify(p, d, rec, claims):
     exp, obs = d['expected'], d['observed']
     xn = rec.get('xfirst', 0) or rec.get('xnode', 0)
     hn = handler_name_assigned_in_nested_statement(p)
-    if hn and obs[0] == 'exc' and obs[1] == 'NameError' and exp != obs:
+    # ... including when Python raises a NameError too, but later (the converted function stops short of expected effects)
+    earlier = exp == obs and d['why'] == 'effects-before-raise' and d['obs_log'] == d['exp_log'][:len(d['obs_log'])]
+    if hn and obs[0] == 'exc' and obs[1] == 'NameError' and (exp != obs or earlier):
         return ('c01:except-as-name-reset-to-undefined',
                 'the variable %s bound by `except ... as %s` is also assigned inside a nested statement of the handler: the '
                 'converter emits `%s = ag__.Undefined(...)` before that statement (the handler binding is not a reaching '
